@@ -512,16 +512,20 @@ func (f *Frame) appendOp(instr *ssa.Call, cc *ssa.CallCommon, reach string, st *
 		}
 		f.ctx.Fact(fmt.Sprintf("(forall ((i Int)) (! (=> (and (<= 0 i) (< i (slen_ %s))) (= (select %s %s) (select %s %s))) %s))", s, h, dst, h, src, pats))
 		if t != "" {
-			dst2 := addrPath(fmt.Sprintf("(selem %s (+ (slen_ %s) i))", r, s), lf.path)
-			var srcv string
-			if tIsStr {
-				srcv = fmt.Sprintf("(sat %s i)", t)
-			} else {
-				srcv = fmt.Sprintf("(select %s %s)", h, addrPath(fmt.Sprintf("(selem %s i)", t), lf.path))
+			// appended elements: r[j] = t[j-len(s)] for len(s) <= j < len(s)+len(t), stated over the
+			// result index j so that a read r[j] matches the pattern without arithmetic
+			mk := func(j, off string) (string, string) {
+				d := addrPath(fmt.Sprintf("(selem %s %s)", r, j), lf.path)
+				if tIsStr {
+					return d, fmt.Sprintf("(sat %s %s)", t, off)
+				}
+				return d, fmt.Sprintf("(select %s %s)", h, addrPath(fmt.Sprintf("(selem %s %s)", t, off), lf.path))
 			}
-			f.ctx.Fact(fmt.Sprintf("(forall ((i Int)) (! (=> (and (<= 0 i) (< i %s)) (= (select %s %s) %s)) :pattern ((select %s %s))))", tlen, h, dst2, srcv, h, dst2))
+			dst2, srcv := mk("j", fmt.Sprintf("(- j (slen_ %s))", s))
+			f.ctx.Fact(fmt.Sprintf("(forall ((j Int)) (! (=> (and (<= (slen_ %s) j) (< j (+ (slen_ %s) %s))) (= (select %s %s) %s)) :pattern ((select %s %s))))", s, s, tlen, h, dst2, srcv, h, dst2))
 			// ground instance for the first appended element (names the term for e-matching)
-			f.ctx.Fact(fmt.Sprintf("(=> (< 0 %s) (= (select %s %s) %s))", tlen, h, strings.ReplaceAll(dst2, " i)", " 0)"), strings.ReplaceAll(srcv, " i)", " 0)")))
+			d0, s0 := mk(fmt.Sprintf("(slen_ %s)", s), "0")
+			f.ctx.Fact(fmt.Sprintf("(=> (< 0 %s) (= (select %s %s) %s))", tlen, h, d0, s0))
 		}
 	}
 	if isByteSlice(cc.Args[0].Type()) {
